@@ -16,7 +16,7 @@ def run_mutant(name):
             res["ok"] = False; res["detail"].append("PATCH FAILED: "+p.stdout+p.stderr); return res
         env = dict(os.environ, VERIF_REPO=repo, VERIF_OUT=out, VERIF_DIR=V)
         for prop, want in [(p,1) for p in exp["must_fail"]] + [(p,0) for p in exp["must_pass"]]:
-            r = subprocess.run([f'{V}/bin/govc','check',prop,'quick'],env=env,capture_output=True,text=True)
+            r = subprocess.run([os.environ.get('ST_GOVC', f'{V}/bin/govc'),'check',prop,'quick'],env=env,capture_output=True,text=True)
             viol = [l for l in r.stdout.splitlines() if l.startswith('VIOLATION') or l.startswith('FAILED')]
             good = (r.returncode == want)
             if not good: res["ok"] = False
